@@ -581,6 +581,11 @@ func tryReplay(p *Prelude, o *Obligation) (map[string]any, bool) {
 	src, inputsDesc := replayTestSource(sp, items, values)
 	info["inputs"] = inputsDesc
 	info["go_test"] = src
+	if len(sp.Fi.Pkg.GoFiles) > 0 {
+		if rel, err := filepath.Rel(repoDir, filepath.Dir(sp.Fi.Pkg.GoFiles[0])); err == nil {
+			info["go_test_pkg"] = rel
+		}
+	}
 	dir := ensureWorkDir()
 	pkgDir := "."
 	if len(sp.Fi.Pkg.GoFiles) > 0 {
